@@ -18,7 +18,7 @@ Definition mid_ok (D B : emap) (F : list id) (cn : bool) (live : list inst)
   (forall k old, lookup k B = Some old -> dcfg D k = Some (e_cfg old) -> lookup k pend = Some (set_act ANone old)) /\
   (forall q e, lookup q pend = Some e -> ns e -> e_rt e = None -> In q ts \/ cn = true) /\
   (forall j k c, In (j, (k, c)) live ->
-     exists q e, lookup q pend = Some e /\ e_rt e = Some j /\ e_id e = k /\ (ns e \/ In j tocall)).
+     exists q e, lookup q pend = Some e /\ e_rt e = Some j /\ e_id e = k /\ e_cfg e = c /\ (ns e \/ In j tocall)).
 
 Definition mid s := mid_ok (s_des s) (s_base s) (s_failed s) (s_cancel s) (s_live s).
 
@@ -55,7 +55,7 @@ Proof.
   - intros k old Hb Hd. specialize (M3 k old Hb Hd). apply R in M3; [exact M3|discriminate].
   - intros q e H Hn Hr. destruct (L q e H) as (e0 & H0 & Hn0 & ->). cbn [set_act e_rt] in Hr.
     destruct (M4 q e0 H0 Hn0 Hr) as [Hin|Hc]; [|now right]. destruct Hts as [->|Hc]; [destruct Hin|now right].
-  - intros j k c Hin. destruct (M7 j k c Hin) as (q & e & He & Hr & Hi & [Hn|[]]).
+  - intros j k c Hin. destruct (M7 j k c Hin) as (q & e & He & Hr & Hi & Hcf & [Hn|[]]).
     exists q, (set_act ANone e). split; [now apply R|]. repeat split; try assumption. left. discriminate.
   - intros q e H. destruct (L q e H) as (e0 & _ & _ & ->). reflexivity.
 Qed.
@@ -77,7 +77,7 @@ Proof.
   - intros q c Hd. destruct (M2 q c Hd) as [(e & He & Hn)|Hf]; [left; exists e; split; [now apply K|exact Hn]|now right].
   - intros k old Hb Hd. apply K; [now apply M3|discriminate].
   - intros q e H Hn Hr. apply (M4 q e); [now apply L|assumption|assumption].
-  - intros j k c Hin. destruct (M7 j k c Hin) as (q & e & He & Hr & Hi & [Hn|[]]).
+  - intros j k c Hin. destruct (M7 j k c Hin) as (q & e & He & Hr & Hi & Hcf & [Hn|[]]).
     exists q, e. split; [now apply K|]. repeat split; auto.
 Qed.
 
@@ -101,7 +101,7 @@ Proof.
     intros ->. rewrite Hk in M3. injection M3 as ->. discriminate.
   - intros q e H Hn Hr. destruct (L q e H) as (Hq & H0). destruct (M4 q e H0 Hn Hr) as [Hin|Hc]; [left|now right].
     now apply in_remove_id.
-  - intros j k' c Hin. destruct (M7 j k' c Hin) as (q & e & He & Hr & Hi & Hn). exists q, e.
+  - intros j k' c Hin. destruct (M7 j k' c Hin) as (q & e & He & Hr & Hi & Hcf & Hn). exists q, e.
     split; [|repeat split; assumption]. rewrite lookup_remove_other; [exact He|].
     intros ->. rewrite Hk in He. injection He as ->. exact (Hj j _ Hin Hr).
 Qed.
@@ -109,10 +109,10 @@ Qed.
 (* a server was created for key k *)
 Lemma mid_update D B F cn live pend ts k ek i c :
   mid_ok D B F cn live pend ts [] -> lookup k pend = Some ek -> e_rt ek = None -> e_act ek = AStart ->
-  e_id ek = k ->
+  e_id ek = k -> e_cfg ek = c ->
   mid_ok D B F cn ((i, (k, c)) :: live) (update_rt k (Some i) pend) (remove_id k ts) [].
 Proof.
-  intros (M1 & M2 & M3 & M4 & M7) Hk Hr Ha Hi.
+  intros (M1 & M2 & M3 & M4 & M7) Hk Hr Ha Hi Hcf0.
   assert (L : forall q e', lookup q (update_rt k (Some i) pend) = Some e' ->
               exists e, lookup q pend = Some e /\ e' = (if id_eqb q k then set_rt (Some i) e else e)).
   { intros q e' H. rewrite lookup_update_rt in H. destruct (lookup q pend) as [e|]; [|discriminate].
@@ -131,8 +131,8 @@ Proof.
     apply id_eqb_neq in E. destruct (M4 q e0 H0 Hn Hr') as [Hin|Hc]; [left; now apply in_remove_id|now right].
   - intros j k' c' [[= <- <- <-]|Hin].
     + exists k, (set_rt (Some i) ek). split; [now rewrite lookup_update_rt, Hk, id_eqb_refl|].
-      repeat split; [exact Hi|]. left. unfold ns. cbn [set_rt e_act]. rewrite Ha. discriminate.
-    + destruct (M7 j k' c' Hin) as (q & e & He & Hr' & Hi' & Hn). exists q, e.
+      repeat split; [exact Hi|exact Hcf0|]. left. unfold ns. cbn [set_rt e_act]. rewrite Ha. discriminate.
+    + destruct (M7 j k' c' Hin) as (q & e & He & Hr' & Hi' & Hcf & Hn). exists q, e.
       split; [|repeat split; assumption]. apply Same; [|exact He].
       intros ->. rewrite Hk in He. injection He as ->. congruence.
 Qed.
@@ -144,8 +144,8 @@ Lemma mid_live_sub D B F cn live live' pend ts tc tc' :
   mid_ok D B F cn live' pend ts tc'.
 Proof.
   intros (M1 & M2 & M3 & M4 & M7) Hs. msplit; try assumption.
-  intros j k c Hin. destruct (Hs j _ Hin) as (Hl & Ht). destruct (M7 j k c Hl) as (q & e & He & Hr & Hi & Hn).
-    exists q, e. split; [exact He|]. split; [exact Hr|]. split; [exact Hi|].
+  intros j k c Hin. destruct (Hs j _ Hin) as (Hl & Ht). destruct (M7 j k c Hl) as (q & e & He & Hr & Hi & Hcf & Hn).
+    exists q, e. split; [exact He|]. split; [exact Hr|]. split; [exact Hi|]. split; [exact Hcf|].
     destruct Hn as [Hn|Hn]; [now left|right; now apply Ht].
 Qed.
 
